@@ -734,7 +734,7 @@ impl Monitor for C20 {
         Some("all 16 listings x item counts {0,1,9,10,11,29,30,31,32,65} x limits {absent,0,1,2,3,7,10,11,29,30,31,100,255,256,257,1024,65536,65537,2^31,2^32-256,u32::MAX}, every cursor taken from the previous page")
     }
     fn rule(&self) -> &'static str {
-        "for each of the 16 paginated listings of the suite a state with N items is built through the real execute messages inside the AppDriver (random address subsets so key order varies; subkeys allowances with ~40% expired entries interleaved; allowances, subkey allowances, group and stake members are churned afterwards: every 5th item removed again, some re-weighted / partially decreased, opposite-direction allowances added), then the listing is walked to exhaustion with 21 different limits, always using the last returned key as cursor. Every page must have exactly min(limit|10, 30, remaining) items, keys strictly ordered (descending for ReverseProposals), the walk must equal the known item set, and every listed value must equal the point query. distinct = (listing, item count)"
+        "for each of the 16 paginated listings of the suite a state with N items is built through the real execute messages inside the AppDriver (random address subsets so key order varies; subkeys allowances with ~40% expired entries interleaved; allowances, subkey allowances, group and stake members are churned afterwards: every 5th item removed again, some re-weighted / partially decreased, opposite-direction allowances added), then the listing is walked to exhaustion with 21 different limits, always using the last returned key as cursor. Every page must have exactly min(limit|10, 30, remaining) items, keys strictly ordered (descending for ReverseProposals), the walk must equal the known item set, and every listed value must equal the point query. For group members and cw20 allowances the item a client was given last is then removed through the real execute message and the listing continued from its key: every later item must still come exactly once. Half of the migrated cw20 tokens are upgraded after their dated grants lapsed. distinct = (listing, item count)"
     }
     fn assumptions(&self) -> Vec<&'static str> {
         vec!["item sets are the ones the harness created through execute messages (cross-checked with the point queries)", "a limit of 0 returns an empty page (nothing else is demanded for it)"]
